@@ -13,10 +13,12 @@ trap 'rm -rf "$WORK"' EXIT
 fail=0; n=0; skipped=0
 run_one() {
   local name="$1" prop="$2" expect="$3" silent="$4"
-  local d="$WORK/$name"
+  local d="$WORK/$(basename $name)"
+  local patchfile="/verif/mutants/$name.patch"
+  case "$name" in seeded/*) patchfile="/verif/$name/patch.diff";; esac
   mkdir -p "$d"
   (cd "$REPO" && git ls-files -z | xargs -0 cp --parents -t "$d" 2>/dev/null)
-  if ! (cd "$d" && patch -p1 -s --no-backup-if-mismatch < /verif/mutants/$name.patch >/dev/null 2>&1); then
+  if ! (cd "$d" && patch -p1 -s --no-backup-if-mismatch < "$patchfile" >/dev/null 2>&1); then
     echo "SKIP $name (patch does not apply to the current tree)"; rm -rf "$d"; return 3
   fi
   if ! (cd "$d" && go build ./... >/dev/null 2>"$d/.builderr"); then
@@ -28,6 +30,12 @@ run_one() {
     if [ $rc -eq 0 ]; then echo "OK   $name: $prop silent on behaviour-preserving rewrite"; return 0; fi
     echo "FAIL $name: $prop raised an alarm on a behaviour-preserving rewrite"; echo "$out" | grep -A2 VIOLATION | head -12; return 1
   fi
+  if [ "$expect" = "ANY" ]; then
+    out=$(bin/orbcheck -repo "$d" -verif "$(pwd)" -prop "$prop" -no-evidence 2>&1); rc=$?
+    rm -rf "$d"
+    if [ $rc -eq 1 ]; then echo "OK   $name: $(echo "$out" | grep -A1 '^VIOLATION' | grep kind= | head -1 | cut -c1-200)"; return 0; fi
+    echo "FAIL $name: $prop no longer reports the seeded change"; return 1
+  fi
   out=$(bin/orbcheck -repo "$d" -verif "$(pwd)" -prop "$prop" -expect "$expect" -no-evidence 2>&1); rc=$?
   rm -rf "$d"
   if [ $rc -eq 0 ]; then echo "OK   $name: $(echo "$out" | grep FIRED | head -1 | cut -c1-220)"; return 0; fi
@@ -35,10 +43,14 @@ run_one() {
 }
 export -f run_one; export WORK REPO
 python3 -c "
-import json
+import json,os,glob
 for m in json.load(open('mutants/index.json')):
     if '$FILTER' in m['name'] or '$FILTER' == m['property']:
         print(m['name'], m['property'], m['expect'] or '-', 'true' if m.get('silent') else 'false')
+for mp in sorted(glob.glob('seeded/*/meta.json')):
+    m=json.load(open(mp))
+    if m.get('check_result')=='DETECTED' and ('$FILTER' in m['name'] or '$FILTER' == m['property']):
+        print('seeded/'+m['name'], m['property'], 'ANY', 'false')
 " > "$WORK/list"
 [ -s "$WORK/list" ] || { echo "no mutant matches '$FILTER'"; exit 0; }
 res=$(cat "$WORK/list" | xargs -P 8 -L 1 bash -c 'run_one "$0" "$1" "$2" "$3"; echo "RC $?"' )
